@@ -30,7 +30,7 @@ func checkC10(c *Ctx, r *Report) {
 	for _, p := range eps {
 		s := e.Summary(p.fn)
 		name := c.FnName(p.fn)
-		for _, sl := range []int{2 * p.src, 2*p.src + 1} {
+		for _, sl := range paramSlots(p.src) {
 			if m := s.mods[sl]; m != nil {
 				r.Bad("R10a", name, "source not modified "+slotStr(sl), c.Pos(p.fn.Pos()), "merging writes into the source: "+e.Chain(m))
 			} else {
@@ -38,14 +38,14 @@ func checkC10(c *Ctx, r *Report) {
 			}
 		}
 		leak := ""
-		for _, sl := range []int{2 * p.src, 2*p.src + 1} {
+		for _, sl := range paramSlots(p.src) {
 			for dst := range s.flows[sl] {
 				leak = fmt.Sprintf("%s flows into %s: %s", slotStr(sl), slotStr(dst), e.Chain(s.flowWhy[[2]int{sl, dst}]))
 			}
 		}
 		// results (NewFrom returns the new config): fresh, not containing the source
 		for k := range s.ret {
-			for _, sl := range []int{2 * p.src, 2*p.src + 1} {
+			for _, sl := range paramSlots(p.src) {
 				if s.ret[k][sl] {
 					leak = fmt.Sprintf("result #%d may be (part of) the source itself", k)
 				}
@@ -175,7 +175,7 @@ func checkC10(c *Ctx, r *Report) {
 			continue
 		}
 		bad := ""
-		for _, sl := range []int{2 * src, 2*src + 1} {
+		for _, sl := range paramSlots(src) {
 			if s.ret[0][sl] {
 				bad = "the result may be (part of) the input value itself — an embedded *Config is wrapped without copying"
 			}
